@@ -260,7 +260,10 @@ def check_lookup(chk, F, cls):
     # leading guards
     guards = []
     k = 0
-    while k < len(body) and body[k].get("k") == "if" and not body[k].get("else"):
+    while k < len(body) and (body[k].get("k") in ("decl", "null") or (body[k].get("k") == "if" and not body[k].get("else"))):
+        if body[k].get("k") in ("decl", "null"):
+            k += 1              # a local between the guards (scope_with_locals reads it through)
+            continue
         th = body[k]["then"]
         st = th["body"] if th.get("k") == "block" else [th]
         if len(st) == 1 and st[0].get("k") == "return":
@@ -285,13 +288,10 @@ def check_lookup(chk, F, cls):
     n_routes = 0
     for st in rest:
         if st.get("k") == "if":
-            # linear route below a threshold
-            for lp in [x for x in walk(st["then"]) if x.get("k") == "for"]:
-                n_routes += 1
-                check_linear(chk, F, cls, f1, lp, sc, n_, b)
-            thr = preds.literal(st["cond"], sc)
-            chk.note("%s linear/binary switch: %s" % (cls, thr))
-    for lp in [x for x in rest if x.get("k") == "for"]:
+            # the size switch between the routes: both routes are required to be right for every N, so which one runs
+            # for which N does not matter
+            chk.note("%s linear/binary switch: %s" % (cls, preds.literal(st["cond"], sc)))
+    for lp in [x for st in rest for x in walk(st) if x.get("k") == "for"]:
         n_routes += 1
         check_linear(chk, F, cls, f1, lp, sc, n_, b)
     fi = [x for st in rest for x in walk(st) if x.get("k") == "call" and callee(x).get("name") == "find_if" and callee(x).get("ns") == "std"]
@@ -312,10 +312,12 @@ def check_lookup(chk, F, cls):
         okc = okc and a == [b + ".begin()", b + ".end()", "$p0"]
         chk.ob("C03-R2", "%s binary route: first breakpoint greater than t over the whole breakpoint range" % cls, okc, loc(f1, c), "%s(%s)" % (callee(c).get("name"), ", ".join(a)),
                construct=cls + "/lookup/binary-call")
-        rets = [r for r in ret_nodes(f1) if any(x is c or (x.get("k") == "var" and x.get("name") == "it") for x in walk(r))]
-        last = body[-1]
-        okr = last.get("k") == "return" and canon(last["e"], sc).replace(" ", "") == ("(distance(%s.begin(),%s) - 1)" % (b, "upper_bound(%s.begin(),%s.end(),$p0)" % (b, b))).replace(" ", "")
-        chk.ob("C03-R2", "%s binary route returns (position of that breakpoint) - 1" % cls, okr, loc(f1, last), canon(last["e"], sc) if last.get("k") == "return" else "", construct=cls + "/lookup/binary-index")
+        ubtxt = "upper_bound(%s.begin(),%s.end(),$p0)" % (b, b)
+        forms = {("(distance(%s.begin(),%s) - 1)" % (b, ubtxt)).replace(" ", ""), ("((%s - %s.begin()) - 1)" % (ubtxt, b)).replace(" ", "")}
+        rets = [r for r in ret_nodes(f1) if r.get("e") is not None and "upper_bound(" in canon(r["e"], sc)]
+        okr = len(rets) == 1 and canon(rets[0]["e"], sc).replace(" ", "") in forms
+        chk.ob("C03-R2", "%s binary route returns (position of that breakpoint) - 1" % cls, okr, loc(f1, rets[0] if rets else None), canon(rets[0]["e"], sc) if rets else "no return uses the search result",
+               construct=cls + "/lookup/binary-index")
     chk.ob("C03-R2", "%s every search route was recognised" % cls, n_routes >= 1, loc(f1), "%d routes" % n_routes, construct=cls + "/lookup/routes")
     # ---- hinted lookup: Flow over path conditions + hint state ----------------------------------------
     sc2 = scope_with_locals(f2)
@@ -378,23 +380,49 @@ def implied(atom, atoms, rv, n_):
 
 
 def check_linear(chk, F, cls, f1, lp, sc, n_, b):
+    """for (v = lo; v < / <= hi; ++v) if (t < b[v + c]) return v + d;   Scanning breakpoint j = v + c in ascending order,
+    the loop returns j - 1 for the first j in 1..N with t < b[j] (strict): needs lo + c = 1, last + c = N, d = c - 1."""
+    import sympy as sp
     init, cond, inc = lp.get("init"), lp.get("cond"), lp.get("inc")
-    ok = init and init.get("k") == "decl" and lit_value(init.get("init")) == "0"
+    ok = bool(init) and init.get("k") == "decl" and lit_value(init.get("init")) is not None and inc is not None and inc.get("k") == "un" and inc["op"] == "++"
+    det = ""
+    okb = False
     if ok:
         sc.bind_opaque(init["id"], "%i")
         p, t = preds.literal(cond, sc)
-        ok = p and t == "%%i < %s" % n_ and inc.get("k") == "un" and inc["op"] == "++"
-    body = lp["body"]
-    st = body["body"] if body.get("k") == "block" else [body]
-    okb = ok and len(st) == 1 and st[0].get("k") == "if" and not st[0].get("else")
-    det = ""
-    if okb:
-        dn = set(refine(frozenset(), st[0]["cond"], True, sc))
-        th = st[0]["then"]
-        rs = th["body"] if th.get("k") == "block" else [th]
-        want = {frozenset({cmp_atom("<", "$p0", "%s[(%%i + 1)]" % b, True)})}
-        okb = dn == want and len(rs) == 1 and rs[0].get("k") == "return" and canon(rs[0]["e"], sc) == "%i"
-        det = "scan condition %s returns %s" % (fmt(dn), canon(rs[0]["e"], sc) if rs and rs[0].get("k") == "return" else "?")
+        body = lp["body"]
+        st = body["body"] if body.get("k") == "block" else [body]
+        V, N = sp.Symbol("V", integer=True), sp.Symbol("N", integer=True, positive=True)
+
+        def lin(txt):
+            try:
+                return sp.expand(sp.sympify(txt.replace(n_, "N").replace("%i", "V"), locals={"N": N, "V": V}))
+            except Exception:
+                return None
+        lo = sp.Integer(int(lit_value(init["init"])))
+        last = None
+        if p and t.startswith("%i < "):
+            hi = lin(t[len("%i < "):])
+            last = hi - 1 if hi is not None else None
+        elif p and t.startswith("%i <= "):
+            last = lin(t[len("%i <= "):])
+        elif (not p) and t.endswith(" < %i"):
+            last = lin(t[:-len(" < %i")])          # not (X < i), i.e. i <= X
+        if last is not None and len(st) == 1 and st[0].get("k") == "if" and not st[0].get("else"):
+            dn = set(refine(frozenset(), st[0]["cond"], True, sc))
+            th = st[0]["then"]
+            rs = th["body"] if th.get("k") == "block" else [th]
+            idx = None
+            if len(dn) == 1 and len(next(iter(dn))) == 1:
+                (pol, txt), = next(iter(dn))
+                pre = "$p0 < %s[" % b
+                if pol and txt.startswith(pre) and txt.endswith("]"):
+                    idx = lin(txt[len(pre):-1])
+            rv = lin(canon(rs[0]["e"], sc)) if len(rs) == 1 and rs[0].get("k") == "return" else None
+            if idx is not None and rv is not None:
+                c_, d_ = sp.expand(idx - V), sp.expand(rv - V)
+                okb = bool(c_.is_Integer and d_.is_Integer and lo + c_ == 1 and sp.expand(last + c_ - N) == 0 and d_ == c_ - 1)
+            det = "scan condition %s returns %s; index from %s to %s" % (fmt(dn), canon(rs[0]["e"], sc) if rs and rs[0].get("k") == "return" else "?", lo, last)
     chk.ob("C03-R2", "%s linear route: first i in 0..N-1 with t < b[i+1] (strict), returning i" % cls, bool(okb), loc(f1, lp), det, construct=cls + "/lookup/linear")
 
 
